@@ -12,7 +12,10 @@ Everything is read from the AST (nothing is imported except one table value), fa
  * UncompressedPointReader.close, EmptyPointReader.close (the objects the reader delegates to), which of them
    `_create_point_source` builds for an uncompressed file and whether it is given the source, the lazy `point_source` property;
  * LasData._write_to: the constant `closefd` it gives to LasWriter, used inside a `with`;
- * LasHeader._prefetch_header_data / read_evlrs / read_from: the sequence of operations performed on the caller's stream.
+ * LasHeader._prefetch_header_data / read_evlrs / read_from: the sequence of operations performed on the caller's stream;
+ * the seekability questions: how LasHeader.read_evlrs and LasReader.read ask (`x.seekable()` or "the object's seekable() if
+   it has one, otherwise False"), and whether read_evlrs asks once before its tests or as the second operand of
+   `self.number_of_evlrs > 0 and ..` (then only files that announce EVLRs make it ask).
 
 Close bodies are translated by a small generic translator (conditions over known booleans, recognised close calls, any other
 statement that does not mention `.close` is a non-closing step), so that deleting a guard, inverting a test or turning a close
@@ -34,6 +37,9 @@ Inductive catch_class := CatchAll | CatchException | CatchLaspy.
 Inductive cact := ActSrc | ActPS.                 (* close the stream this object holds | close the point source *)
 Inductive ps_kind := PKUncompressed (src_given : bool) | PKEmpty (src_given : bool).
 Inductive sop := SRead (n : Z) | SReadToOffset | STellSave | SSeekEvlrStart | SReadEvlrs | SSeekSaved.
+(* how the code asks an object whether it can seek: `obj.seekable()` (AttributeError when the object has no such attribute) |
+   `getattr(obj, "seekable", lambda: False)()`: the object's answer if it can give one, otherwise False *)
+Inductive squery := QCall | QGetattrFalse.
 
 """
 
@@ -135,6 +141,61 @@ def dispatch(mod, body, target):
                  f"helper {h.name}: {type(n).__name__}")
         _require(not (isinstance(n, ast.Name) and isinstance(n.ctx, (ast.Store, ast.Del)) and n.id in params), f"helper {h.name} rebinds a parameter")
     return s, [(None if t is None else _subst(t, env), [_subst(p, env) for p in pre], _subst(v, env)) for t, pre, v in _chain_return(h.body)]
+
+
+def _is_const(e, v):
+    return isinstance(e, ast.Constant) and type(e.value) is type(v) and e.value == v
+
+
+def seek_query(e, obj):
+    """`e` asks the object spelt `obj` whether it can seek -> "QCall" | "QGetattrFalse"; None when `e` is something else.
+    QCall:          obj.seekable()
+    QGetattrFalse:  getattr(obj, "seekable", lambda: False)()  |  obj.seekable() if hasattr(obj, "seekable") else False
+                    |  hasattr(obj, "seekable") and obj.seekable()      (all: the object's answer if it has one, else a false value)"""
+    def is_call(x):
+        return (isinstance(x, ast.Call) and not x.args and not x.keywords and isinstance(x.func, ast.Attribute)
+                and x.func.attr == "seekable" and ast.unparse(x.func.value) == obj)
+
+    def is_hasattr(x):
+        return (isinstance(x, ast.Call) and isinstance(x.func, ast.Name) and x.func.id == "hasattr" and not x.keywords
+                and len(x.args) == 2 and ast.unparse(x.args[0]) == obj and _is_const(x.args[1], "seekable"))
+    if is_call(e):
+        return "QCall"
+    if isinstance(e, ast.Call) and not e.args and not e.keywords and isinstance(e.func, ast.Call):
+        g = e.func
+        if (isinstance(g.func, ast.Name) and g.func.id == "getattr" and not g.keywords and len(g.args) == 3
+                and ast.unparse(g.args[0]) == obj and _is_const(g.args[1], "seekable") and isinstance(g.args[2], ast.Lambda)):
+            a = g.args[2].args
+            if not (a.args or a.posonlyargs or a.kwonlyargs or a.vararg or a.kwarg) and _is_const(g.args[2].body, False):
+                return "QGetattrFalse"
+        return None
+    if isinstance(e, ast.IfExp) and is_hasattr(e.test) and is_call(e.body) and _is_const(e.orelse, False):
+        return "QGetattrFalse"
+    if isinstance(e, ast.BoolOp) and isinstance(e.op, ast.And) and len(e.values) == 2 and is_hasattr(e.values[0]) and is_call(e.values[1]):
+        return "QGetattrFalse"
+    return None
+
+
+def mentions_seekable(node):
+    """the places of `node` that speak of the attribute `seekable` (by attribute access or by its name as a string)"""
+    return [n for n in ast.walk(node) if (isinstance(n, ast.Attribute) and n.attr == "seekable") or _is_const(n, "seekable")]
+
+
+def uses_outside(node, name, allowed):
+    """the loads/stores of the variable `name` under `node` that are not inside one of the sub-expressions `allowed` (by identity)"""
+    skip = {id(x) for x in allowed}
+    out = []
+
+    def go(n):
+        if id(n) in skip:
+            return
+        if isinstance(n, ast.Name) and n.id == name:
+            out.append(n)
+        for c in ast.iter_child_nodes(n):
+            go(c)
+    for n in (node if isinstance(node, list) else [node]):
+        go(n)
+    return out
 
 
 class CloseTr:
@@ -570,22 +631,69 @@ def gen_ownership(repo):
         return f"Definition gen_prefetch_ops : list sop := [SRead {n0}; SReadToOffset].\n"
     o.add("gen_prefetch_ops", prefetch)
 
-    def read_evlrs():
+    def evlrs_shape():
+        """LasHeader.read_evlrs -> dict(query, asked, ops):
+             if self.version.minor >= 4:
+                 [tmp = Q]                                         Q: a seekability question put to the stream (seek_query)
+                 if self.number_of_evlrs > 0 and (tmp | Q): <operations on the stream>
+                 [elif self.number_of_evlrs > 0 and not (tmp | Q): ..]  [else: ..]     (nothing else touches the stream)
+             [else: ..]"""
+        if "evlrs" in cache:
+            return cache["evlrs"]
         cls = find_class(parse(repo, "laspy/header.py"), "LasHeader")
         f = find_func(cls, "read_evlrs")
         st = f.args.args[1].arg
         body = strip_doc(f.body)
         if len(body) != 1 or not isinstance(body[0], ast.If) or ast.unparse(body[0].test) != "self.version.minor >= 4":
             raise Untranslatable("read_evlrs is not guarded by `self.version.minor >= 4`")
-        inner = body[0].body
-        if any(re.search(rf"\b{st}\.", ast.unparse(s)) for s in body[0].orelse):
+        inner = list(body[0].body)
+        if any(re.search(rf"\b{st}\b", ast.unparse(s)) for s in body[0].orelse):
             raise Untranslatable("read_evlrs touches the stream for versions below 1.4")
-        if len(inner) != 1 or not isinstance(inner[0], ast.If) or ast.unparse(inner[0].test) != f"self.number_of_evlrs > 0 and {st}.seekable()":
+        tmp = None
+        if len(inner) == 2 and isinstance(inner[0], ast.Assign) and len(inner[0].targets) == 1 and isinstance(inner[0].targets[0], ast.Name):
+            # the question is put once, before the tests, and its answer kept in a local
+            tmp = inner[0].targets[0].id
+            q_tmp = seek_query(inner[0].value, st)
+            _require(q_tmp is not None and tmp != st, f"read_evlrs: statement before the seekable branch: {ast.unparse(inner[0])[:80]}")
+            inner = inner[1:]
+        if len(inner) != 1 or not isinstance(inner[0], ast.If):
             raise Untranslatable("read_evlrs: guard of the seekable branch")
-        for s in inner[0].orelse:
-            t = ast.unparse(s).replace(f"{st}.seekable()", "")
-            if re.search(rf"\b{st}\b", t):
-                raise Untranslatable("read_evlrs touches the stream outside the seekable branch")
+        node = inner[0]
+
+        def guard(test, negated):
+            """`self.number_of_evlrs > 0 and [not] <answer>` -> the question asked in place (None: the local holds the answer)"""
+            _require(isinstance(test, ast.BoolOp) and isinstance(test.op, ast.And) and len(test.values) == 2
+                     and ast.unparse(test.values[0]) == "self.number_of_evlrs > 0", "read_evlrs: guard of the seekable branch")
+            ans = test.values[1]
+            if negated:
+                _require(isinstance(ans, ast.UnaryOp) and isinstance(ans.op, ast.Not), "read_evlrs: guard of the branch taken when the stream cannot seek")
+                ans = ans.operand
+            if tmp is not None:
+                _require(isinstance(ans, ast.Name) and ans.id == tmp, "read_evlrs: guard of the seekable branch")
+                return None, ans
+            q = seek_query(ans, st)
+            _require(q is not None, "read_evlrs: guard of the seekable branch")
+            return q, ans
+        q_in, where = guard(node.test, False)
+        query = q_tmp if tmp is not None else q_in
+        allowed = [where]
+        if len(node.orelse) == 1 and isinstance(node.orelse[0], ast.If):
+            # asked again (or the kept answer looked at again) only after the first test said "cannot seek": the same question
+            el = node.orelse[0]
+            if uses_outside(el.test, st, []) or (tmp is not None and uses_outside(el.test, tmp, [])) or mentions_seekable(el.test):
+                q2, where2 = guard(el.test, True)
+                _require(tmp is not None or q2 == query, "read_evlrs: the second test asks the stream in another way than the first")
+                allowed.append(where2)
+        # nothing else speaks of seekability, the stream is used in the seekable branch only, the kept answer is bound once and
+        # looked at in the tests only
+        asked_at = allowed if tmp is None else [body[0].body[0].value]
+        inside = {id(m) for a in asked_at for m in ast.walk(a)}
+        _require(all(id(m) in inside for m in mentions_seekable(f)), "read_evlrs asks the stream whether it can seek somewhere else too")
+        _require(not uses_outside(node.orelse, st, allowed), "read_evlrs touches the stream outside the seekable branch")
+        if tmp is not None:
+            stores = [n for n in ast.walk(f) if isinstance(n, ast.Name) and n.id == tmp and isinstance(n.ctx, (ast.Store, ast.Del))]
+            _require(len(stores) == 1 and tmp not in [a.arg for a in f.args.args], "read_evlrs rebinds the answer of the stream")
+            _require(not uses_outside(node.body + node.orelse, tmp, allowed), "read_evlrs uses the answer of the stream outside its tests")
         table = {
             f"saved_pos = {st}.tell()": "STellSave",
             f"{st}.seek(self.start_of_first_evlr, io.SEEK_SET)": "SSeekEvlrStart",
@@ -595,15 +703,64 @@ def gen_ownership(repo):
             f"{st}.seek(saved_pos, io.SEEK_SET)": "SSeekSaved",
         }
         ops = []
-        for s in inner[0].body:
+        for s in node.body:
             t = ast.unparse(s)
             if t in table:
                 ops.append(table[t])
             elif re.search(rf"\b{st}\b", t):
                 raise Untranslatable(f"read_evlrs: stream operation {t[:80]}")
-        return ("(* operations of LasHeader.read_evlrs on the stream when version >= 1.4, number_of_evlrs > 0 and the stream is seekable *)\n"
-                "Definition gen_read_evlrs_ops : list sop := [" + "; ".join(ops) + "].\n")
+        cache["evlrs"] = {"query": query, "asked": "true" if tmp is not None else "has_evlrs", "ops": ops}
+        return cache["evlrs"]
+
+    def read_evlrs_query():
+        e = evlrs_shape()
+        return ("(* how LasHeader.read_evlrs asks the caller's stream whether it can seek (version >= 1.4) *)\n"
+                f"Definition gen_read_evlrs_query : squery := {e['query']}.\n")
+    o.add("gen_read_evlrs_query", read_evlrs_query)
+
+    def read_evlrs_asked():
+        e = evlrs_shape()
+        return ("(* whether it asks, given `self.number_of_evlrs > 0`: `true` = once, before its tests, whatever the file announces;\n"
+                "   `has_evlrs` = as the second operand of `self.number_of_evlrs > 0 and ..`, i.e. only when EVLRs are announced *)\n"
+                f"Definition gen_read_evlrs_query_asked (has_evlrs : bool) : bool := {e['asked']}.\n")
+    o.add("gen_read_evlrs_query_asked", read_evlrs_asked)
+
+    def read_evlrs():
+        e = evlrs_shape()
+        return ("(* operations of LasHeader.read_evlrs on the stream when version >= 1.4, number_of_evlrs > 0 and the answer is yes *)\n"
+                "Definition gen_read_evlrs_ops : list sop := [" + "; ".join(e["ops"]) + "].\n")
     o.add("gen_read_evlrs_ops", read_evlrs)
+
+    def reader_read_query():
+        """LasReader.read: `if Q(self.point_source.source): self.read_evlrs() else: <read them where the stream stands>`
+        (or the negated test with the branches swapped); LasReader.read_evlrs is `self.header.read_evlrs(self._source)`"""
+        cls = find_class(parse(repo, "laspy/lasreader.py"), "LasReader")
+        f = find_func(cls, "read")
+        obj = "self.point_source.source"
+        found = []
+        for n in ast.walk(f):
+            if not isinstance(n, ast.If):
+                continue
+            t, neg = n.test, False
+            if isinstance(t, ast.UnaryOp) and isinstance(t.op, ast.Not):
+                t, neg = t.operand, True
+            q = seek_query(t, obj)
+            if q is not None:
+                found.append((n, t, q, neg))
+        _require(len(found) == 1, f"LasReader.read: {len(found)} tests of the source's seekability")
+        n, t, q, neg = found[0]
+        inside = {id(m) for m in ast.walk(t)}
+        _require(all(id(m) in inside for m in mentions_seekable(f)), "LasReader.read asks the source whether it can seek somewhere else too")
+        yes, no = (n.orelse, n.body) if neg else (n.body, n.orelse)
+        _require([ast.unparse(s) for s in strip_doc(yes)] == ["self.read_evlrs()"], "LasReader.read: the branch of a source that can seek is not `self.read_evlrs()`")
+        _require(no and not any("read_evlrs" in ast.unparse(s) for s in no), "LasReader.read: the branch of a source that cannot seek")
+        r = find_func(cls, "read_evlrs")
+        _require([ast.unparse(s) for s in strip_doc(r.body)] == ["self.header.read_evlrs(self._source)"],
+                 "LasReader.read_evlrs is not `self.header.read_evlrs(self._source)`")
+        return ("(* how LasReader.read asks its source whether it can seek when EVLRs are still to be loaded: yes -> LasHeader.read_evlrs\n"
+                "   (which asks for itself), no -> they are read where the stream stands *)\n"
+                f"Definition gen_reader_read_query : squery := {q}.\n")
+    o.add("gen_reader_read_query", reader_read_query)
 
     def read_from():
         cls = find_class(parse(repo, "laspy/header.py"), "LasHeader")
